@@ -153,21 +153,21 @@ theorem genTrue_sound : ∀ p : GP,
         simp only [evalG, pyGe, pyCmp_dt, ofCmp, cmpInt_isGe, dayUs]
         simp; omega
       · have := h1 k rfl
-        simp only [evalG, pyGe, pyCmp_flt, ofCmp, cmpInt_isGe]; simp [this]
+        simp only [evalG, pyGe_val]; simp [this]
       · have := h1 n rfl
         simp only [evalG, pyGe, pyCmp_int_asInt hn, ofCmp, cmpInt_isGe]; simp [scale_le, this]
       · simpa using h
     · simp only [zipOf, Outs, GVal.tuple.injEq] at h; subst h; simp [GP.chainLen, evalTup]
   | gt w =>
-    refine ⟨fun _ v h => ?_, fun _ xs h => ?_⟩
+    refine ⟨fun hk v h => ?_, fun _ xs h => ?_⟩
     · simp only [genTrue] at h
       rcases cmpGen_outs _ _ _ _ _ _ _ _ (by intro k; right; rfl) h with ⟨a, rfl, hx⟩ | ⟨k, a, rfl, rfl, h1, _⟩ | ⟨n, a, hn, rfl, h1, _⟩ | h
       · obtain ⟨d, rfl⟩ := mem_dayList hx
         simp only [evalG, pyGt, pyCmp_dt, ofCmp, cmpInt_isGt, dayUs]
         simp; omega
-      · have := h1 _ rfl
-        have := nextUp_gt k
-        simp only [evalG, pyGt, pyCmp_flt, ofCmp, cmpInt_isGt]; simp; omega
+      · have hne : k ≠ .inf false := by rintro rfl; simp [okT, isPosInf, isNegInf, XF.val] at hk
+        have := XF.lt_of_lt_of_le (nextUpX_gt k hne) (h1 _ rfl)
+        simp only [evalG, pyGt_val]; simp [this]
       · have := h1 _ rfl
         simp only [evalG, pyGt, pyCmp_int_asInt hn, ofCmp, cmpInt_isGt]; simp [scale_lt]; omega
       · simpa using h
@@ -180,21 +180,21 @@ theorem genTrue_sound : ∀ p : GP,
         simp only [evalG, pyLe, pyCmp_dt, ofCmp, cmpInt_isLe, dayUs]
         simp; omega
       · have := h1 k rfl
-        simp only [evalG, pyLe, pyCmp_flt, ofCmp, cmpInt_isLe]; simp [this]
+        simp only [evalG, pyLe_val]; simp [this]
       · have := h1 n rfl
         simp only [evalG, pyLe, pyCmp_int_asInt hn, ofCmp, cmpInt_isLe]; simp [scale_le, this]
       · simpa using h
     · simp only [zipOf, Outs, GVal.tuple.injEq] at h; subst h; simp [GP.chainLen, evalTup]
   | lt w =>
-    refine ⟨fun _ v h => ?_, fun _ xs h => ?_⟩
+    refine ⟨fun hk v h => ?_, fun _ xs h => ?_⟩
     · simp only [genTrue] at h
       rcases cmpGen_outs _ _ _ _ _ _ _ _ (by intro k; left; rfl) h with ⟨a, rfl, hx⟩ | ⟨k, a, rfl, rfl, _, h1⟩ | ⟨n, a, hn, rfl, _, h1⟩ | h
       · obtain ⟨d, rfl⟩ := mem_dayList hx
         simp only [evalG, pyLt, pyCmp_dt, ofCmp, cmpInt_isLt, dayUs]
         simp; omega
-      · have := h1 _ rfl
-        have := nextDown_lt k
-        simp only [evalG, pyLt, pyCmp_flt, ofCmp, cmpInt_isLt]; simp; omega
+      · have hne : k ≠ .inf true := by rintro rfl; simp [okT, isPosInf, isNegInf, XF.val] at hk
+        have := XF.lt_of_le_of_lt (h1 _ rfl) (nextDownX_lt k hne)
+        simp only [evalG, pyLt_val]; simp [this]
       · have := h1 _ rfl
         simp only [evalG, pyLt, pyCmp_int_asInt hn, ofCmp, cmpInt_isLt]; simp [scale_lt]; omega
       · simpa using h
@@ -251,7 +251,8 @@ theorem genTrue_sound : ∀ p : GP,
         cases k <;> simp only [genTrue, floatsFrom, Outs, List.not_mem_nil, List.mem_singleton] at h
         all_goals first
           | (obtain ⟨a, rfl⟩ := h; simp [evalG, isInst])
-          | (obtain ⟨a, rfl, _⟩ := h; simp [evalG, isInst])
+          | (obtain ⟨a, rfl, _⟩ := h; simp [evalG, isInst]; done)
+          | (obtain ⟨a, rfl, _⟩ := h; cases a <;> simp [evalG, isInst, XF.val])
           | (subst h; simp [evalG, isInst])
           | exact absurd h id
     · simp only [zipOf, Outs, GVal.tuple.injEq] at h; subst h; simp [GP.chainLen, evalTup]
@@ -421,6 +422,7 @@ theorem C09_dictof_overlap_guard : okT dictOverlap = false := by decide
 
 example : (takeN 5 3 (genTrue (.ge (.int 101))) ⟨[5, 0, 999], []⟩).values = [.int 101, .int 101, .int 111] := by rfl
 example : okT (.ge (.int 101)) = true := by decide
+set_option maxRecDepth 8000 in
 example : (takeN 5 3 (genTrue (.gt (.flt (2 * scale)))) ⟨[], []⟩).values.length = 3 := by rfl
 example : (takeN 9 4 (genTrue (.all (.inst [.int]))) ⟨[3, 1, 2, 3, 0, 1, 2], []⟩).values.length = 4 := by rfl
 example : nextUp 0 = 1 := by decide
@@ -430,6 +432,84 @@ example : nextDown 0 = -1 := by decide
 example : nextUp (2 ^ 53) = 2 ^ 53 + 2 := by decide
 example : nextUp (2 ^ 53 - 1) = 2 ^ 53 := by decide
 example : nextDown (2 ^ 53) = 2 ^ 53 - 1 := by decide
+
+/-! ### The edge of the double range (fixes/gen-float-overflow.diff)
+
+`flt k` bounds of every magnitude are inside `C09_generate_true_sound` (no "the bound is a finite
+double" hypothesis was needed: the clamp keeps the derived bound on the right side of the given one
+whatever `k` is).  The infinities appear as *values*: `math.nextafter` at `±sys.float_info.max`. -/
+
+/-- What `random_floats` resolves its bounds to when the lower bound given is `+inf`: both `+inf`. -/
+theorem XF.le_pinf (x : XF) : XF.le x (.inf false) = true := by
+  cases x with
+  | fin k => simp [XF.le]
+  | inf n => cases n <;> simp [XF.le]
+
+theorem XF.ninf_le (x : XF) : XF.le (.inf true) x = true := by
+  cases x with
+  | fin k => simp [XF.le]
+  | inf n => cases n <;> simp [XF.le]
+
+theorem floatsFrom_pinf : floatsFrom (some (.inf false)) Option.none = .floats (.inf false) (.inf false) 0 := by
+  simp [floatsFrom, XF.max, XF.lt, XF.le_pinf]
+
+theorem floatsFrom_ninf : floatsFrom Option.none (some (.inf true)) = .floats (.inf true) (.inf true) 0 := by
+  simp [floatsFrom, XF.min, XF.lt, XF.ninf_le]
+
+theorem outs_floats_inf {n : Bool} {ph : Nat} {v : GVal} (h : Outs (.floats (.inf n) (.inf n) ph) v) : v = .inf n := by
+  obtain ⟨a, rfl, hb⟩ := h
+  obtain ⟨h1, h2⟩ := hb (XF.le_refl _)
+  cases a with
+  | fin k => cases n <;> simp [XF.le] at h1 h2
+  | inf m => cases n <;> cases m <;> simp [XF.le, XF.val] at h1 h2 ⊢
+
+/-- **Boundary case `gt_p(sys.float_info.max)`.**  On every tape, at every position: the value
+yielded is `+inf` — and it satisfies the predicate (`inf > max` is `True`). -/
+theorem C09_gt_maxF (raws : List Int) (fuel want : Nat) :
+    ∀ v ∈ (takeN fuel want (genTrue (.gt (.flt maxF))) ⟨raws, []⟩).values,
+      v = .inf false ∧ evalG (.gt (.flt maxF)) v = .ok true := by
+  intro v hv
+  have hs := C09_generate_true_sound (.gt (.flt maxF)) rfl raws fuel want v hv
+  have ho := takeN_outs fuel want _ _ v hv
+  simp only [genTrue, cmpGen, nextUpX_maxF, floatsFrom_pinf] at ho
+  exact ⟨outs_floats_inf ho, hs⟩
+
+/-- **Boundary case `lt_p(-sys.float_info.max)`**: every value is `-inf`, which satisfies it. -/
+theorem C09_lt_neg_maxF (raws : List Int) (fuel want : Nat) :
+    ∀ v ∈ (takeN fuel want (genTrue (.lt (.flt (-maxF)))) ⟨raws, []⟩).values,
+      v = .inf true ∧ evalG (.lt (.flt (-maxF))) v = .ok true := by
+  intro v hv
+  have hs := C09_generate_true_sound (.lt (.flt (-maxF))) rfl raws fuel want v hv
+  have ho := takeN_outs fuel want _ _ v hv
+  simp only [genTrue, cmpGen, nextDownX_neg_maxF, floatsFrom_ninf] at ho
+  exact ⟨outs_floats_inf ho, hs⟩
+
+/-- The stream is not empty there (non-vacuity of the two boundary theorems), and no draw is made. -/
+theorem C09_gt_maxF_stream (raws : List Int) :
+    (takeN 1 3 (genTrue (.gt (.flt maxF))) ⟨raws, []⟩).values = [.inf false, .inf false, .inf false]
+    ∧ (takeN 1 3 (genTrue (.gt (.flt maxF))) ⟨raws, []⟩).log = [] := by
+  simp [genTrue, cmpGen, nextUpX_maxF, floatsFrom_pinf, takeN, pull, XF.val, XF.lt_irrefl]
+
+/-- `ge_p` / `le_p` at the edge: the widened default is clamped to the largest double
+(`2 * bound` overflows there), so the stream stays between the bound and `±max`. -/
+theorem floatsFrom_ge_maxF : floatsFrom (some (.fin maxF)) Option.none = .floats (.fin maxF) (.fin maxF) 0 := by
+  have h1 := maxF_pos
+  have h2 := cHi_lt_maxF
+  have e1 : XF.dbl (.fin maxF) = .inf false := by simp [XF.dbl]; omega
+  simp [floatsFrom, e1, XF.max, XF.min, XF.lt, XF.le]
+
+/-- An infinite *bound* is outside the guard: no float is greater than `+inf`, yet the float arm of
+`generate_true(gt_p(math.inf))` yields `+inf` (so does the real code; unsatisfiable request). -/
+theorem C09_gt_inf_outside :
+    okT (.gt (.inf false)) = false
+    ∧ (∀ raws, (takeN 1 1 (genTrue (.gt (.inf false))) ⟨raws, []⟩).values = [.inf false])
+    ∧ evalG (.gt (.inf false)) (.inf false) = .ok false := by
+  refine ⟨rfl, fun raws => ?_, by decide⟩
+  simp [genTrue, cmpGen, nextUpX, floatsFrom_pinf, takeN, pull, XF.val]
+
+example : okT (.gt (.flt maxF)) = true := rfl
+example : okT (.lt (.flt (-maxF))) = true := rfl
+example : okT (.ge (.inf true)) = true := rfl
 
 /-! ### The pinned (unrepaired) `random_ints`, for the record -/
 
